@@ -19,17 +19,18 @@ func CompileToGetCodeSet(ctx *RuntimeContext, typeptr uintptr) (*OpcodeSet, erro
 		return getFilteredCodeSetIfNeeded(ctx, codeSet)
 	}
 	index := (typeptr - typeAddr.BaseTypeAddr) >> typeAddr.AddrShift
+	// only the slot is read under the lock: filtering may call Marshal (to hash
+	// the query), which comes back here and must not find the read lock held.
 	setsMu.RLock()
-	if codeSet := cachedOpcodeSets[index]; codeSet != nil {
-		filtered, err := getFilteredCodeSetIfNeeded(ctx, codeSet)
+	cached := cachedOpcodeSets[index]
+	setsMu.RUnlock()
+	if cached != nil {
+		filtered, err := getFilteredCodeSetIfNeeded(ctx, cached)
 		if err != nil {
-			setsMu.RUnlock()
 			return nil, err
 		}
-		setsMu.RUnlock()
 		return filtered, nil
 	}
-	setsMu.RUnlock()
 
 	codeSet, err := newCompiler().compile(typeptr)
 	if err != nil {
